@@ -430,7 +430,8 @@ func validateSecurityRequirement(ctx context.Context, input *RequestValidationIn
 		options = &Options{}
 	}
 	f := options.AuthenticationFunc
-	if f == nil {
+	if f == nil && len(names) > 0 {
+		// (an empty requirement asks for no authentication: nothing to call)
 		return ErrAuthenticationServiceMissing
 	}
 
